@@ -52,6 +52,31 @@ def spd(rng, n, kappa, batch=()):
     return torch.stack(out).reshape(*batch, n, n)
 
 
+# members of one batch that differ in conditioning (the factorisation of a batch is ONE call: psd_safe_cholesky's jitter
+# loop runs for the whole batch as soon as one member fails)
+PROFILE_KAPPA = {"ok": 1e2, "small": 1e6, "small7": 1e7}       # PD members: eigenvalues log-spaced in [1/kappa, 1]
+PROFILE_SING = {"sing1": -1e-9, "sing2": -5e-8}                # numerically singular members: smallest eigenvalue (the plain
+#   factorisation fails; it succeeds after the first (1e-8) resp. the second (1e-7) jitter step - robustly, the margins
+#   are >= 5e-9, far above rounding)
+
+
+def spd_tag(rng, n, tag):
+    q = orth(rng, n)
+    if tag in PROFILE_KAPPA:
+        k = PROFILE_KAPPA[tag]
+        ev = [k ** (-(n - 1 - i) / (n - 1)) for i in range(n)]
+    else:
+        ev = [1e3 ** (-(n - 1 - i) / (n - 1)) for i in range(n)]
+        ev[0] = PROFILE_SING[tag]
+    ev = [e * (1.0 if i in (0, n - 1) else rng.uniform(0.9, 1.1)) for i, e in enumerate(ev)]
+    a = (q * torch.tensor(ev, dtype=F64)) @ q.T
+    return (a + a.T) / 2
+
+
+def spd_profile(rng, n, profile):
+    return torch.stack([spd_tag(rng, n, t) for t in profile])
+
+
 def posvec(rng, n, lo, hi, batch=()):
     m = int(math.prod(batch)) if batch else 1
     return torch.tensor([math.exp(rng.uniform(math.log(lo), math.log(hi))) for _ in range(m * n)], dtype=F64).reshape(*batch, n)
@@ -75,7 +100,7 @@ def label(e):
         if isinstance(e.get(k), dict):
             kids.append(label(e[k]))
     tag = c
-    if c in ("Chol", "Tri", "CholInverse", "CholDiag", "TriRepeat"):
+    if c in ("Chol", "Tri", "CholInverse", "CholDiag", "TriRepeat", "CholOf", "FactorTri"):
         tag += "[upper]" if e["upper"] else "[lower]"
     if c == "KronAddedDiag":
         tag += "[%s]" % e["dk"]
@@ -137,6 +162,13 @@ def build(e):
         return O.BatchRepeatLinearOperator(build(e["base"]), batch_repeat=torch.Size(e["rep"]))
     if c == "Permutation":
         return O.PermutationLinearOperator(e["perm"].clone())
+    if c == "CholOf":
+        # a solve routed through a factor operator: the Cholesky factor of ANY PD operator in the requested orientation,
+        # wrapped as the library wraps it
+        return O.CholLinearOperator(build(e["base"]).cholesky(upper=e["upper"]), upper=e["upper"])
+    if c == "FactorTri":
+        # the factor operator itself (a triangular system)
+        return build(e["base"]).cholesky(upper=e["upper"])
     raise ValueError(c)
 
 
@@ -220,6 +252,11 @@ def dense(e):
     if c == "Permutation":
         p = e["perm"]
         return torch.eye(p.shape[-1], dtype=F64)[p]
+    if c == "CholOf":
+        return dense(e["base"])                 # R^T R = L L^T = A: the operator denotes A itself
+    if c == "FactorTri":
+        l = torch.linalg.cholesky(dense(e["base"]))      # the unique factor with a positive diagonal (plain torch)
+        return l.mT.contiguous() if e["upper"] else l
     raise ValueError(c)
 
 
@@ -357,6 +394,12 @@ def opd_lit(e, bb, idx):
     if c == "Permutation":
         p = member(e["perm"], bb, idx, 1)
         return "(DPerm float %s)" % nat_list(p.tolist())
+    if c == "CholOf":
+        return "(DCholOf %s %s)" % (common.coq_bool(e["upper"]), opd_lit(e["base"], bb, idx))
+    if c == "FactorTri":
+        # specified behaviour: substitution with the Cholesky factor of the dense matrix (computed by plain torch)
+        t = member(dense(e), bb, idx)
+        return "(DTriDense %s %d%%N %s)" % (common.coq_bool(e["upper"]), t.shape[-1], mat_lit(t))
     raise ValueError(c)
 
 
@@ -364,6 +407,30 @@ def opd_lit(e, bb, idx):
 def gen(rng, cls, n, kappa, obatch=(), **kw):
     """a PD (or triangular / permutation) operator spec of class `cls`, size n (composites: see below)"""
     ob = list(obatch)
+    prof = kw.get("profile")
+    if prof is not None:
+        # a batch (len(profile),) whose members differ in conditioning
+        assert ob == [len(prof)] and n >= 2
+        if cls == "Dense":
+            return {"cls": "Dense", "t": spd_profile(rng, n, prof)}
+        if cls == "Sum":
+            p_ = spd_profile(rng, n, prof)
+            s_ = _randn(rng, *ob, n, n) * 0.01
+            s_ = (s_ + s_.mT) / 2
+            return {"cls": "Sum", "ops": [{"cls": "Dense", "t": p_ / 2 + s_}, {"cls": "Dense", "t": p_ / 2 - s_}]}
+        if cls == "ConstantMul":
+            return {"cls": "ConstantMul", "base": {"cls": "Dense", "t": spd_profile(rng, n, prof)}, "c": torch.ones(ob, dtype=F64)}
+        if cls == "Kron":
+            sizes = kw["sizes"]
+            return {"cls": "Kron", "ops": [{"cls": "Dense", "t": spd_profile(rng, sizes[0], prof)}]
+                    + [{"cls": "Dense", "t": spd(rng, m, 10.0, ob)} for m in sizes[1:]]}
+        if cls in ("BlockDiag", "BlockInterleaved"):
+            k = kw["blocks"]
+            t = torch.stack([torch.stack([spd_tag(rng, n, tg if b == 0 else "ok") for b in range(k)]) for tg in prof])
+            return {"cls": cls, "base": {"cls": "Dense", "t": t}}
+        if cls in ("CholOf", "FactorTri"):
+            return {"cls": cls, "base": gen(rng, kw["base"], n, kappa, ob, profile=prof, **kw.get("base_kw", {})), "upper": kw["upper"]}
+        raise ValueError("no profile generator for " + cls)
     if cls == "Dense":
         return {"cls": "Dense", "t": spd(rng, n, kappa, ob)}
     if cls == "Sum":
@@ -420,6 +487,8 @@ def gen(rng, cls, n, kappa, obatch=(), **kw):
         return {"cls": cls, "base": gen(rng, kw.get("base", "Dense"), n, kappa, ob + [k], **kw.get("base_kw", {}))}
     if cls == "BatchRepeat":
         return {"cls": cls, "base": gen(rng, "Dense", n, kappa, kw.get("base_batch", ())), "rep": tuple(kw["rep"])}
+    if cls in ("CholOf", "FactorTri"):
+        return {"cls": cls, "base": gen(rng, kw["base"], n, kappa, ob, **kw.get("base_kw", {})), "upper": kw["upper"]}
     if cls == "Permutation":
         perms = []
         for _ in range(int(math.prod(ob)) if ob else 1):
